@@ -4,23 +4,26 @@ and record the result in meta.json (history kept under "rechecks")."""
 import json, os, subprocess, sys, time
 VERIF = os.path.dirname(os.path.dirname(os.path.abspath(__file__)))
 name, checks = sys.argv[1], sys.argv[2].split(",")
+ROOT = sys.argv[sys.argv.index("--root") + 1] if "--root" in sys.argv else None   # isolated copy made by tools/seediso.sh
+REPO = os.path.join(ROOT, "repo") if ROOT else "/repo"
+VDIR = os.path.join(ROOT, "verif") if ROOT else VERIF
 d = os.path.join(VERIF, "seeded", name)
 meta = json.load(open(os.path.join(d, "meta.json")))
-p = subprocess.run("git -C /repo apply --3way %s || git -C /repo apply %s" % (os.path.join(d, "patch.diff"), os.path.join(d, "patch.diff")), shell=True, capture_output=True, text=True)
-st = subprocess.run("git -C /repo status --short", shell=True, capture_output=True, text=True).stdout
+p = subprocess.run("git -C %s apply --3way %s || git -C %s apply %s" % (REPO, os.path.join(d, "patch.diff"), REPO, os.path.join(d, "patch.diff")), shell=True, capture_output=True, text=True)
+st = subprocess.run("git -C %s status --short" % REPO, shell=True, capture_output=True, text=True).stdout
 if not st.strip():
     print("patch did not apply:", p.stderr[-300:]); sys.exit(2)
 res = {}
 try:
     for c in checks:
         t0 = time.time()
-        q = subprocess.run("python3 tools/check.py %s --tier quick" % c, shell=True, cwd=VERIF, capture_output=True, text=True, timeout=3600)
+        q = subprocess.run("python3 tools/check.py %s --tier quick" % c, shell=True, cwd=VDIR, capture_output=True, text=True, timeout=3600)
         o = q.stdout
         viol = [l for l in o.splitlines() if l.startswith("VIOLATION")]
         res[c] = {"exit": q.returncode, "violations": len(viol), "keys": [l.strip() for l in o.splitlines() if l.strip().startswith("key:")][:3],
                   "wall_s": round(time.time() - t0, 1), "tail": o[-300:] if q.returncode == 2 else ""}
 finally:
-    subprocess.run("git -C /repo reset -q --hard HEAD", shell=True)
-meta.setdefault("rechecks", []).append({"at": time.strftime("%Y-%m-%dT%H:%M:%S"), "repo_head": subprocess.run("git -C /repo log --format=%h -1", shell=True, capture_output=True, text=True).stdout.strip(), "results": res})
+    subprocess.run("git -C %s reset -q --hard HEAD" % REPO, shell=True)
+meta.setdefault("rechecks", []).append({"at": time.strftime("%Y-%m-%dT%H:%M:%S"), "repo_head": subprocess.run("git -C %s log --format=%%h -1" % REPO, shell=True, capture_output=True, text=True).stdout.strip(), "results": res})
 json.dump(meta, open(os.path.join(d, "meta.json"), "w"), indent=1)
 print(name, {c: (r["exit"], r["violations"], r["keys"][:1]) for c, r in res.items()})
